@@ -855,7 +855,7 @@ func c12replayOf(sh *c12Sheet, format string) *c12Case {
 }
 
 func c12ann(s *obiseq.BioSequence, key string) (string, bool) {
-	if !s.HasAnnotation() {
+	if s == nil || !s.HasAnnotation() {
 		return "", false
 	}
 	v, ok := s.Annotations()[key]
@@ -992,6 +992,9 @@ func (h *c12H) eval(c *c12Case) {
 
 // c12canon: a record as a comparable string (sequence and every annotation).
 func c12canon(o *obiseq.BioSequence) string {
+	if o == nil {
+		return "<nil record>"
+	}
 	return fmt.Sprintf("%s %v", o.String(), o.Annotations())
 }
 
@@ -1029,6 +1032,12 @@ func (h *c12H) evalOn(c *c12Case, w obiseq.SeqSliceWorker) (canon []string, ok b
 	if len(out) == 0 {
 		h.violate("ExtractMultiBarcode/read-lost", "no record at all comes back", sh, c, b.read, out)
 		return nil, false
+	}
+	for _, o := range out {
+		if o == nil {
+			h.violate("ExtractMultiBarcode/nil-record", fmt.Sprintf("a nil record among the %d returned", len(out)), sh, c, b.read, nil)
+			return nil, false
+		}
 	}
 	for _, o := range out {
 		canon = append(canon, c12canon(o))
@@ -1832,6 +1841,7 @@ func (h *c12H) evalHistory(c *c12Case) {
 	if sh == nil {
 		panic("unknown sheet " + c.Sheet)
 	}
+	h.r.Count("histories", 1) // histories submitted (what the implementation answers does not enter)
 	if h.worker(sh, c.Format) == nil { // reports a sheet that cannot be read, once
 		return
 	}
@@ -1848,7 +1858,7 @@ func (h *c12H) evalHistory(c *c12Case) {
 	if w == nil {
 		return
 	}
-	h.r.Count("histories", 1)
+	h.r.Count("histories_run", 1)
 	desc := func(i int, got, want []string) string {
 		var reads []string
 		for j := range c.Hist {
@@ -2182,7 +2192,7 @@ func TestVerifC12(t *testing.T) {
 	r.RequireNonVacuous("front:declared_reads")
 	r.RequireNonVacuous("construction:sample-expected")
 	r.RequireNonVacuous("construction:error-expected")
-	r.RequireNonVacuous("records_assigned")
+	// (records_assigned counts what the implementation answers: a counter, not a guard)
 	h.enumerate()
 	r.Sample(c12Case{Class: "single", Sheet: "S4-hamming", Format: "csv", Left: "tat", Right: "gga",
 		Amps: []c12Amp{{M: 0, TagF: "aaag", TagR: "ttgc", PF: c12inst(c12F1, false), PR: c12R1, BC: c12barcodes[0], Rev: true}}})
@@ -2211,6 +2221,9 @@ func c12drain(it obiiter.IBioSequence) obiseq.BioSequenceSlice {
 }
 
 func c12sig(s *obiseq.BioSequence) string {
+	if s == nil {
+		return "<nil record>" // never expected: shows as a wrong record, not as a crash of the harness
+	}
 	smp, _ := c12ann(s, "sample")
 	_, e := c12ann(s, "obimultiplex_error")
 	return fmt.Sprintf("%s|%s|%v", s.String(), smp, e)
@@ -2245,12 +2258,26 @@ func (h *c12H) evalCLI(dir string, c *c12CLICase) {
 			h.sheets[ref0.Name] = ref0
 		}
 	}
+	h.r.Count("cli_commands", 1) // command lines submitted
 	w := h.worker(ref0, c.Format)
 	if w == nil {
-		return
+		return // the sheet is refused: reported once by worker()
 	}
-	ref, err := w(mk())
-	if err != nil {
+	var ref obiseq.BioSequenceSlice
+	var err error
+	refCrash := ""
+	func() {
+		defer func() {
+			if x := recover(); x != nil {
+				refCrash = c12crashText(x)
+			}
+		}()
+		ref, err = w(mk())
+	}()
+	if refCrash != "" || err != nil {
+		// the control run (the worker itself on the same reads, judged by part 0) fails: a verdict on the tree;
+		// the comparison that needs it is skipped
+		h.r.Violate("IExtractBarcode/control-run/worker-fails", fmt.Sprintf("sheet %s (%s) reads=%v: the worker alone: %s %v", c.Sheet, c.Format, c.Reads, refCrash, err), c)
 		return
 	}
 	var wantOut, wantUnid []string
@@ -2341,12 +2368,19 @@ func (h *c12H) evalCLI(dir string, c *c12CLICase) {
 			obiiter.WaitForLastPipe()
 			f, err := os.Open(unid)
 			if err == nil {
-				it, err2 := obiformats.ReadFasta(f)
-				if err2 == nil {
-					for _, s := range c12drain(it) {
-						gotUnid = append(gotUnid, c12sig(s))
+				func() { // the reader is code of the tree under test: a panic / log.Fatal on what the command wrote = an unreadable file
+					defer func() {
+						if x := recover(); x != nil {
+							gotUnid = append(gotUnid[:0], "<file not readable: "+c12crashText(x)+">")
+						}
+					}()
+					it, err2 := obiformats.ReadFasta(f)
+					if err2 == nil {
+						for _, s := range c12drain(it) {
+							gotUnid = append(gotUnid, c12sig(s))
+						}
 					}
-				}
+				}()
 				f.Close()
 			}
 			sort.Strings(gotUnid)
@@ -2362,11 +2396,51 @@ func (h *c12H) evalCLI(dir string, c *c12CLICase) {
 	}
 }
 
+// c12GoID: number of the calling goroutine (first line of its stack: "goroutine 17 [running]:").
+func c12GoID() string {
+	b := make([]byte, 64)
+	f := strings.Fields(string(b[:runtime.Stack(b, false)]))
+	if len(f) > 1 {
+		return f[1]
+	}
+	return "?"
+}
+
+// c12net: a log.Fatal* or log.Panic* raised in a goroutine the implementation started (the workers of the
+// command's pipeline) cannot be caught by any guard of the harness and ends the process: the tree under test does
+// that, not the harness. It is recorded as a violation, the shard writes what it has found and stops there. In the
+// goroutine of the harness nothing changes (the panic that follows is caught by the guards around the calls).
+type c12net struct {
+	r       *verifkit.Result
+	harness string
+}
+
+func (n c12net) Levels() []log.Level { return []log.Level{log.PanicLevel} }
+
+func (n c12net) Fire(e *log.Entry) error {
+	n.end("log.Panic", e.Message)
+	return nil
+}
+
+func (n c12net) end(what, msg string) {
+	if c12GoID() == n.harness {
+		return
+	}
+	stack := make([]byte, 3000)
+	stack = stack[:runtime.Stack(stack, false)]
+	n.r.Violate("IExtractBarcode/"+what+"-in-a-goroutine-of-the-pipeline", fmt.Sprintf("%s %q in a goroutine started by the implementation; the shard stops here\n%s", what, msg, stack), nil)
+	n.r.Cap("a log.Fatal / log.Panic in a goroutine of the implementation ended a shard: its remaining cases were not run")
+	n.r.Write()
+	os.Exit(0)
+}
+
 func TestVerifC12CLI(t *testing.T) {
 	log.SetOutput(io.Discard)
-	log.StandardLogger().ExitFunc = func(int) { panic(c12exit{}) }
 	r := verifkit.New("C12")
 	defer r.Write()
+	net := c12net{r, c12GoID()}
+	log.AddHook(net)
+	log.StandardLogger().ExitFunc = func(int) { net.end("log.Fatal", ""); panic(c12exit{}) }
 	h := &c12H{r: r, sheets: map[string]*c12Sheet{}, libs: map[string]obiseq.SeqSliceWorker{}, aloneCache: map[string][]string{}}
 	for _, s := range c12Sheets() {
 		h.sheets[s.Name] = s
@@ -2387,7 +2461,7 @@ func TestVerifC12CLI(t *testing.T) {
 		h.evalCLI(dir, &c)
 		return
 	}
-	r.RequireNonVacuous("cli_records_out")
+	r.RequireNonVacuous("cli_commands") // (cli_records_out counts what the command delivers: a counter only)
 	k := 0
 	// (S5: a sheet whose parameters are given per side and per primer, through the command's own way to the reader)
 	for _, name := range []string{"S1-basic", "S2-two-markers", "S4-hamming", "S5-levenshtein-per-primer"} {
